@@ -163,6 +163,18 @@ theorem reasm_perm (s : List α) (l₁ l₂ : List (Seg α)) (hs : Slices s l₁
     have := (beyond_iff l₂ _).mpr ⟨g, hp.mem_iff.mp hg, hc⟩
     rw [hb2] at this; cases this
 
+/-- `reassembly_time_independent`: capture timestamps play no part.  The reference (stream, loss flag, and the
+    datagrams with their order of completion) is a function of the sequence of (offset, payload) segments /
+    (key, fragment) packets alone: whatever timestamps `ts₁`, `ts₂` the same packets carry — constant, hours or
+    days apart, running backwards, wrapping — the results coincide. -/
+theorem reassembly_time_independent {κ τ : Type} [BEq κ] (segs : List (Seg α)) (frs : List (κ × Frag α))
+    (ts₁ ts₂ : List τ) (h₁ : segs.length ≤ ts₁.length) (h₂ : segs.length ≤ ts₂.length)
+    (g₁ : frs.length ≤ ts₁.length) (g₂ : frs.length ≤ ts₂.length) (base : Nat) (st : FragGroups κ α) :
+    reasmFrom ((ts₁.zip segs).map (·.2)) base = reasmFrom ((ts₂.zip segs).map (·.2)) base ∧
+    defragRun st ((ts₁.zip frs).map (·.2)) = defragRun st ((ts₂.zip frs).map (·.2)) := by
+  rw [List.map_snd_zip h₁, List.map_snd_zip h₂, List.map_snd_zip g₁, List.map_snd_zip g₂]
+  exact ⟨rfl, rfl⟩
+
 /-- `defrag_complete`: fragments that are slices of the datagram payload `d` (any cut points, order,
     duplicates), the fragments without more-fragments end at `|d|` and one of them is there, every byte is in
     some fragment ⇒ the reference returns `d`. -/
